@@ -73,6 +73,7 @@ class GenCfg:
     value_exprs: bool = True      # constant expressions as default values
     names: tuple = tuple(SAFE_POOL)
     nonneg_states: bool = False
+    mixed_default_comp: bool = True   # the default (header-less) component next to named ones
 
     def with_(self, **kw) -> "GenCfg":
         return replace(self, **kw)
@@ -346,10 +347,13 @@ def gen_model(draw, cfg: GenCfg):
         comp_names = [""]
     else:
         comp_names = draw(st.lists(st.sampled_from(COMPS), min_size=ncomp, max_size=ncomp, unique=True))
+        if cfg.mixed_default_comp and c.p(0.25):
+            comp_names = [""] + comp_names[1:] if len(comp_names) > 1 else ["", comp_names[0]]
 
     def gen_comps():
-        if len(comp_names) >= 2 and cfg.multi_comp_atoms and c.p(0.08):
-            return draw(st.lists(st.sampled_from(comp_names), min_size=2, max_size=2, unique=True))
+        named = [n for n in comp_names if n != ""]
+        if len(named) >= 2 and cfg.multi_comp_atoms and c.p(0.08):
+            return draw(st.lists(st.sampled_from(named), min_size=2, max_size=2, unique=True))
         return [c.pick(comp_names)]
 
     def annot(entry):
